@@ -451,6 +451,7 @@ def replay(ctx, obj):
                 print("  ", x["what"])
             rc = 1 if f2 else rc
     for b in obj.get("broken", []):
-        print("no longer checks:", b if isinstance(b, str) else b.get("detail", b))
-        rc = 1
+        print("no longer checked at the time of the report:", str(b if isinstance(b, str) else b.get("detail", b))[:600])
+    if not obj.get("failures"):
+        rc = 1     # proof / tie failure without a concrete input: re-run `./check C10` to re-evaluate
     return rc
